@@ -531,8 +531,9 @@ fn gen_scenario(r: &mut Rng) -> Scenario {
     }
     if n_init > 0 && r.chance(1, 6) { let id = 1 + r.below(n_init as u64); init.push(OpK::Rm { id }); }
     if r.chance(2, 3) { init.push(OpK::Flush); }
-    let wide = r.chance(1, 4);
-    let n_ops = 2 + r.usize(if wide { 3 } else { 2 });
+    // 2..4 concurrent calls; half of the scenarios have 3 or 4
+    let wide = r.chance(1, 2);
+    let n_ops = if wide { 3 + r.usize(2) } else { 2 + r.usize(2) };
     let hot = 1 + r.below(n_init.max(1) as u64); // the document most calls fight over
     let key = |r: &mut Rng| if r.chance(1, 2) { 10 + r.below(4) } else { 30 + r.below(2) };
     let ukey = |r: &mut Rng| if r.chance(1, 2) { 20 + r.below(4) } else { 40 + r.below(2) };
@@ -543,7 +544,7 @@ fn gen_scenario(r: &mut Rng) -> Scenario {
             0..=4 => { let (k, u, v) = (key(r), ukey(r), r.below(3)); OpK::Add { k, u, v } }
             5..=10 => {
                 let mut k = None; let mut u = None; let mut v = None;
-                match r.below(6) { 0 => k = Some(key(r)), 1 => u = Some(ukey(r)), 2 | 3 => v = Some(r.below(5)), 4 => { k = Some(key(r)); v = Some(r.below(5)); } _ => { k = Some(key(r)); u = Some(ukey(r)); } }
+match r.below(13) { 12 => {} /* empty field map: `No fields to update` */ 0 | 6 => k = Some(key(r)), 1 | 7 => u = Some(ukey(r)), 2 | 3 | 8 | 9 => v = Some(r.below(5)), 4 | 10 => { k = Some(key(r)); v = Some(r.below(5)); } _ => { k = Some(key(r)); u = Some(ukey(r)); } }
                 OpK::Upd { id, k, u, v }
             }
             11..=14 => OpK::Rm { id },
@@ -650,6 +651,14 @@ fn explore(rt: &tokio::runtime::Runtime, name: &str, sc: &Scenario, cap: u64, se
         if model.is_some() { rep.model_compared += 1; }
         if sc.cache { rep.hit("pass:cache-on-oracle-only"); }
         for r in &out.results { rep.hit(&format!("result:{}", r.split(['=', '(']).next().unwrap_or("?"))); }
+        // which branch of the model each call took (op kind x outcome), and which backend-call classes were scheduled
+        for (o, r) in sc.ops.iter().zip(&out.results) {
+            let kind = op_text(o).split(' ').next().unwrap_or("?").to_string();
+            let outcome = if r.starts_with("flushed=") { r.split(';').next().unwrap_or("flushed").replace('=', ":") } else { r.split(['=', '(']).next().unwrap_or("?").to_string() };
+            rep.hit(&format!("branch:{kind}:{outcome}"));
+        }
+        for c in &out.classes { if c != "start" { rep.hit(&format!("call:{c}")); } }
+        rep.hit(&format!("tasks:{}", sc.ops.len()));
         if let Some((key, what, exp, obs)) = ck.oracle_fail {
             // a gated replay exhibits a window that only real parallelism opens
             let key = if sc.gate.is_some() { format!("parallel-index-closure:{key}") } else { key };
